@@ -148,6 +148,56 @@ pub fn imp_block(sw: &Sweep, block: u8) -> Result<u64, String> {
     r.map_err(|_| "abort".to_string())
 }
 
+/// exhaustive 16-bit sweep: HL = hh:ll for every ll (or one), every DE, both carries
+pub fn imp_block16x(sw: &Sweep, hh: u8, only_l: Option<u8>) -> Result<u64, String> {
+    let r = std::panic::catch_unwind(|| {
+        let mut c = CPU::new(15);
+        let mut h: u64 = 0xcbf29ce484222325;
+        for ll in 0..=255u8 {
+            if let Some(l) = only_l {
+                if l != ll {
+                    continue;
+                }
+            }
+            for de in 0..=65535u16 {
+                for cy in 0..2 {
+                    setup(&mut c, sw.code, 0, 0, if cy == 1 { 0xFF } else { 0x00 }, 0, 0);
+                    c.reg.h = hh;
+                    c.reg.l = ll;
+                    c.reg.d = (de >> 8) as u8;
+                    c.reg.e = de as u8;
+                    c.execute();
+                    h = mix(mix(mix(h, c.reg.h as u64), c.reg.l as u64), (c.reg.flags.to_byte() & 0xD7) as u64);
+                }
+            }
+        }
+        h
+    });
+    r.map_err(|_| "abort".to_string())
+}
+
+/// the 2^17 cases of one (hh, ll) as ordinary cases
+pub fn expand_block16x(sw: &Sweep, hh: u8, ll: u8) -> Vec<Case> {
+    let mut cases = vec![];
+    for de in 0..=65535u16 {
+        for cy in 0..2 {
+            let mut s = St::default();
+            s.top = 15;
+            s.regs[F] = if cy == 1 { 0xFF } else { 0 };
+            s.regs[H] = hh;
+            s.regs[L] = ll;
+            s.regs[D] = (de >> 8) as u8;
+            s.regs[E] = de as u8;
+            s.poke(0, sw.code);
+            let mut c = Case::new(format!("sweep:{}", sw.name));
+            c.push(Cmd::S(Box::new(s)), NONE);
+            c.push(Cmd::X, Proj { fmask: sw.mask, regs: true, ..NONE });
+            cases.push(c);
+        }
+    }
+    cases
+}
+
 /// number of blocks a sweep has (single-block sweeps vary both operands inside the block)
 pub fn blocks_of(sw: &Sweep) -> Vec<u8> {
     match sw.kind {
